@@ -40,6 +40,8 @@ class B(pg.Object):
 
 OKEYS_B = {1: 'z', 2: 'w'}
 PH = 150
+RF = 160
+SHARED = ['shared', 'plain', 'list']      # the non-symbolic object every pg.Ref leaf points at
 
 
 def keymap(o):
@@ -148,6 +150,8 @@ class Replayer:
       return [{}]
     if v == PH:
       return pg.oneof([1, 2])
+    if v == RF:
+      return pg.Ref(SHARED)
     if v == 221:
       with pg.allow_writable_accessors(None), pg.as_sealed(None):
         return B.partial()
@@ -363,6 +367,9 @@ class Replayer:
       return pyv == pg.MISSING_VALUE
     if specv == PH:
       return isinstance(pyv, pg.hyper.OneOf)
+    if specv == RF:
+      # a copy of a reference must still point at the very same object
+      return isinstance(pyv, pg.Ref) and pyv.value is SHARED
     return type(pyv) is int and pyv == specv
 
   def bind_new(self, st, pre_alive: Set[int], ret):
@@ -427,14 +434,15 @@ class Replayer:
         raise Divergence('content', f'node {n}: class {type(o).__name__} expected {want_cls.__name__}')
     # -- returned value
     if 'ret' in self.clauses and out_kind == 'ok' and st['act'][0] in ('DictPop', 'DictPopItem', 'ListPop', 'DictSetDefault', 'Clone', 'JsonRoundTrip'):
-      if not self.match_value(spec_out['ret'], ret):
+      # a value read through an accessor is the *referenced* object when the stored leaf is a pg.Ref
+      if not (self.match_value(spec_out['ret'], ret) or (spec_out['ret'] == RF and ret is SHARED)):
         # setdefault returns the passed default (a plain container) when it inserts; only leaves are generated
         raise Divergence('ret', f'spec {spec_out["ret"]} impl {ret!r}')
     # -- one place
     seen = {}
     for n in alive:
       for k, v in self.items_of(self.obj[n]):
-        if isinstance(v, pg.Symbolic) and not isinstance(v, pg.hyper.OneOf):
+        if isinstance(v, pg.Symbolic) and not isinstance(v, (pg.hyper.OneOf, pg.Ref)):
           if id(v) in seen:
             raise Divergence('oneplace', f'object stored at {seen[id(v)]} and at {(n, k)}')
           seen[id(v)] = (n, k)
@@ -552,7 +560,7 @@ class Replayer:
       for k in kp.keys:
         cur = cur.sym_getattr(k)
         loc.append(k)
-        if isinstance(cur, pg.hyper.OneOf):
+        if isinstance(cur, (pg.hyper.OneOf, pg.Ref)):
           hit_ph = True
           break
       if hit_ph or not isinstance(cur, pg.Symbolic):
@@ -601,6 +609,8 @@ class Replayer:
         return pg.MISSING_VALUE
       if v == PH:
         return pg.oneof([1, 2])
+      if v == RF:
+        return pg.Ref(SHARED)
       return v
 
     def build(n):
